@@ -151,3 +151,20 @@ func HarnessC05GoViewsOfContainers() {
 	}
 	verifrt.Assert(same, "go-view-of-a-container-independent-of-map-iteration-order")
 }
+
+// HarnessC05GlobalsConversionError: when several of the values a host hands
+// over as globals cannot be converted, the error does not depend on Go-map
+// iteration order.
+func HarnessC05GlobalsConversionError() {
+	bad := map[string]any{"zeta": make(chan int), "alpha": func() {}, "mid": 1, "omega": struct{ C chan int }{}}
+	_, err1 := AsObjects(bad)
+	verifrt.MapOrderAll(true)
+	_, err2 := AsObjects(bad)
+	verifrt.MapOrderAll(false)
+	verifrt.Assert(err1 != nil && err2 != nil, "unconvertible-globals-are-rejected")
+	if err1 == nil || err2 == nil {
+		return
+	}
+	verifrt.Reach("compared")
+	verifrt.Assert(err1.Error() == err2.Error(), "conversion-error-independent-of-map-iteration-order")
+}
